@@ -98,10 +98,12 @@ def bounds_refusal(rep):
         t = raises.test
         conds = t.values if isinstance(t, ast.BoolOp) and isinstance(t.op, ast.Or) else [t]
         got = set()
+        from .. import reading_rules as _R
         for c in conds:
             if isinstance(c, ast.Compare) and len(c.ops) == 1:
-                left = env.get(unparse(c.left), unparse(c.left))
-                right = env.get(unparse(c.comparators[0]), unparse(c.comparators[0]))
+                left = env.get(unparse(c.left), _R.rtext(fn, c.left, keep=(gv, tv)))
+                right = env.get(unparse(c.comparators[0]),
+                                _R.rtext(fn, c.comparators[0], keep=(gv, tv)))
                 op = type(c.ops[0]).__name__
                 if op in ("Gt", "GtE"):      # normalise a > b  to  b < a
                     left, right, op = right, left, {"Gt": "Lt", "GtE": "LtE"}[op]
@@ -267,8 +269,10 @@ def analysis_synthesis(rep):
     M = P.atom("M")
     # analysis: alm[l, m] = sum(conj(sYlm(s, l, m, theta, phi)) * f * dtheta_weight * dphi)
     p1 = [a.arg for a in co.args.args]
+    returned = {unparse(r.value) for r in ast.walk(co) if isinstance(r, ast.Return)
+                and r.value is not None}
     st = [x for x in b1 if isinstance(x, ast.Assign) and isinstance(x.targets[0], ast.Subscript)
-          and unparse(x.targets[0].value) == "alm"]
+          and unparse(x.targets[0].value) in returned]
     if len(st) != 1:
         raise AnalysisError("sYlm_coefficients: the store into alm[l, m] was not found")
     ev, env = body_env(co, el1, m1, b1, st[0])
